@@ -270,7 +270,7 @@ def oracle(w, c, a, setenv, envm):
     # 3. not started
     if not started:
         if a["ran"] is not None and a["ran"] is not False:
-            bad.append("command could not be started but Exec's first result is true")
+            bad.append("command %r%s could not be started (no child process reported) but Exec's first result is true" % (c["cmd"], " [%s]" % c["shape"] if c.get("shape") else ""))
         if a["mg_status"] != 1 or a["sh_status"] != 1:
             bad.append("command could not be started, status mg=%d sh=%d (want 1)" % (a["mg_status"], a["sh_status"]))
     # expansion: env map first, then the inherited environment
